@@ -31,7 +31,8 @@ CONSTANTS NTraces, Items
 VARIABLES loopTh, gen, now, it, lost, variant, scn, hs, ready, timers, hl, fut, lp, q, ex, fwake, go, idled, woken, own, tid, l
 
 NoFamily(v) == {}
-INSTANCE AsyncIOSched WITH Foreign <- {"F", "G"}, Variants <- {"own"}, OwnSets <- {{}}, Family <- NoFamily
+NoOwnLoops(v, s) == {{}}
+INSTANCE AsyncIOSched WITH Foreign <- {"F", "G"}, Variants <- {"own"}, OwnSets <- NoOwnLoops, Family <- NoFamily
 
 Traces == JsonDeserialize(IOEnv.TRACE_FILE)
 
